@@ -1576,5 +1576,39 @@ pub fn dictionary_frames() -> Vec<Vec<u8>> {
             }
         }
     }
+    // UTF-8 EDGE payloads under Payload Format Indicator = 1 (PUBLISH and will): every class of malformation —
+    // a final character cut short by 1..3 bytes, overlong forms, surrogates, beyond U+10FFFF, lone continuation,
+    // lead + non-continuation — after prefixes that put it on either side of 16/32/64-byte block boundaries,
+    // at the very end and followed by one more ASCII byte; plus the valid neighbours of each
+    let bads: [&[u8]; 20] = [
+        &[0xc3], &[0xe2], &[0xe2, 0x82], &[0xf0], &[0xf0, 0x9f], &[0xf0, 0x9f, 0x98], &[0xdf], &[0xef, 0xbf], &[0xf4, 0x8f, 0xbf],
+        &[0xc0, 0xaf], &[0xe0, 0x80, 0xaf], &[0xf0, 0x80, 0x80, 0xaf], &[0xed, 0xa0, 0x80], &[0xed, 0xbf, 0xbf], &[0xf4, 0x90, 0x80, 0x80], &[0xf5, 0x80, 0x80, 0x80],
+        &[0x80], &[0xc3, 0x28], &[0xc3, 0xa9], &[0xf0, 0x9f, 0x98, 0x80],
+    ];
+    for pre in [0usize, 2, 13, 15, 16, 29, 31, 32, 61, 63, 64] {
+        for bad in bads.iter() {
+            for suffix in [&b""[..], &b"z"[..]] {
+                let mut payload = vec![b'a'; pre];
+                payload.extend_from_slice(bad);
+                payload.extend_from_slice(suffix);
+                for first in [0x30u8, 0x32] {
+                    let mut body = Vec::new();
+                    st(&mut body, b"t");
+                    if first == 0x32 {
+                        body.extend_from_slice(&[0, 7]);
+                    }
+                    body.extend_from_slice(&[2, 0x01, 0x01]);
+                    body.extend_from_slice(&payload);
+                    out.push(frame(first, body));
+                }
+                let mut body = vec![0, 4, b'M', b'Q', b'T', b'T', 5, 0x04, 0, 10, 0];
+                st(&mut body, b"c");
+                body.extend_from_slice(&[2, 0x01, 0x01]);
+                st(&mut body, b"w");
+                st(&mut body, &payload);
+                out.push(frame(0x10, body));
+            }
+        }
+    }
     out
 }
